@@ -43,8 +43,20 @@ def cases(draw, cls, max_n=120):
     if draw(st.integers(0, 3)) == 0:
         return _scheduled(draw, cfg, n)
     case = {"cfg": cfg, "stream": draw(gs.streams(n, n, with_ts=False))}
+    if cls in ("StandardDeviation", "BBANDS", "StandardDeviationThreshold") and draw(st.integers(0, 2)) == 0:
+        # the input is another series that starts late (an indicator with a warm-up of its own): the first reading
+        # belongs where `period` inputs exist, not where `period` candles exist
+        late = min(n, draw(st.sampled_from((1, 2, 5, 9, 14))))
+        v, vals = draw(st.sampled_from((0, 50, 1000))), []
+        for _ in range(n - late):
+            v += draw(st.integers(-3, 3))
+            vals.append(round(v * 0.25, 2))
+        cfg["kw"]["input_value"] = "X"
+        case["values"] = [None] * late + vals
     if cls in nm.RETUNE_OK and draw(st.integers(0, 3)) == 0:
         case["retune_from"] = draw(st.integers(2, 20))  # first built and calculated with this period, then re-tuned
+    if "input_value" in cfg["kw"] and draw(st.integers(0, 3)) == 0:
+        case["sibling_input"] = draw(st.sampled_from(("high", "low", "open")))
     if draw(st.integers(0, 3)) == 0:
         from hxv.lib import interlude
 
@@ -141,7 +153,7 @@ def run_case(case) -> Result:
         except Exception as exc:
             ind, v = None, raises(exc)
     else:
-        ind, v = nm.run_batch(cfg, rows, prep, inter=case.get("interlude"))
+        ind, v = nm.run_batch(cfg, rows, prep, inter=case.get("interlude"), sibling_input=case.get("sibling_input"))
         if case.get("interlude"):
             labels.append("maintenance_interlude")
     if v is not None:
@@ -150,6 +162,9 @@ def run_case(case) -> Result:
     col = nm.lift_rows(rows)
     h, l, c = col["high"], col["low"], col["close"]
     x = col[kw.get("input_value", "close")] if kw.get("input_value", "close") in col else None
+    if kw.get("input_value") == "X" and cls != "Counter":
+        x = bd.lift(list(case["values"]) + [None] * (len(rows) - len(case["values"])))
+        labels.append("late_starting_input")
     p = kw.get("period")
 
     def J(field, impl, ref, upto=None):
